@@ -576,6 +576,16 @@ static Token *subst(Token *tok, MacroArg *args) {
 
       if (arg->tok->kind == TK_EOF) {
         MacroArg *arg2 = find_arg(args, rhs);
+        if (rhs->kind == TK_EOF)
+          error_tok(tok->next, "'##' cannot appear at end of macro expansion");
+
+        // In `x ## y ## z` with an empty x, y is the left operand of
+        // the next ##, so let the next iteration handle it.
+        if (arg2 && equal(rhs->next, "##")) {
+          tok = rhs;
+          continue;
+        }
+
         if (arg2) {
           for (Token *t = arg2->tok; t->kind != TK_EOF; t = t->next)
             cur = cur->next = copy_token(t);
